@@ -11,9 +11,11 @@ A tag line is `pre ++ TAG ++ blanks ++ v ++ trail`:
                      and blanks: `endOk_pieces`);
 * `!openEnd trail` — white space aside, the trail does not end with `"`, `'` or `]` (after these
                      END's `\s*` could run on into the next line);
-* `tailSafe v`     — no non-empty tail of the value can begin something END matches (Brzozowski
-                     derivatives; implied when the last character of `v` is one END cannot consume);
-* `isStripped v`, `frameFree pre v` — as before.
+* `valueSafeIn v trail` — no non-empty tail of the value can begin something END matches
+                     (`tailSafe`, Brzozowski derivatives; implied when the last character of `v` is one
+                     END cannot consume), *or* no tail of the value is taken for terminators in this line
+                     read alone and the line does not end with `"`, `'`, `]`;
+* `isStripped v`, `frameFree pre v` — as before; a *framed* line captures `v ++ ws ++ mirror pre`.
 -/
 import ReuseVerif.Spec.Achievable
 import ReuseVerif.Spec.HistoryFull
@@ -24,16 +26,37 @@ open Py Model
 /-- the physical line of a tag-line description (without its line end) -/
 def TagLineSpec.line (tag : Text) (s : TagLineSpec) : Text := s.pre ++ tag ++ s.blanks ++ s.v ++ s.trail
 
+/-- **The condition on the captured text `w`, about the line alone**: no non-empty tail of `w` can begin something
+    END matches (`tailSafe`: independent of the trail) — or no tail of `w`, read with the trail of this line and
+    nothing after it, is taken for terminators (`noEndSuffixBefore`: the exact condition for the line read alone) and
+    the line does not end, white space aside, with `"`, `'` or `]`.  Either way the same holds whatever follows the
+    line (`C02L.valueSafe_any`). -/
+def valueSafeIn (endRe : Re) (w trail : Text) : Bool :=
+  tailSafe endRe w || (noEndSuffixBefore endRe w trail && !openEnd (w ++ trail))
+
+/-- the regular-expression part of the hypotheses on a tag line (`s.v` is what the expression captures) -/
+def tagLineRaw (endRe : Re) (tag : Text) (s : TagLineSpec) : Bool :=
+  WFShape tag s.pre s.blanks s.v s.trail [] && endOk endRe s.trail && !openEnd s.trail &&
+  valueSafeIn endRe s.v s.trail
+
 /-- the hypotheses on a tag line; all of them about the line alone -/
 def tagLineOK (endRe : Re) (tag : Text) (s : TagLineSpec) : Bool :=
   WFShape tag s.pre s.blanks s.v s.trail [] && endOk endRe s.trail && !openEnd s.trail &&
-  tailSafe endRe s.v && isStripped s.v && frameFree s.pre s.v
+  valueSafeIn endRe s.v s.trail && isStripped s.v && frameFree s.pre s.v
+
+/-- a framed tag line: the expression captures the value, white space and the mirror image of the line prefix -/
+def TagLineSpec.framed (s : TagLineSpec) (ws : Text) : TagLineSpec :=
+  ⟨s.pre, s.blanks, s.v ++ ws ++ mirror s.pre, s.trail⟩
+
+/-- the hypotheses on a framed tag line `pre ++ TAG ++ blanks ++ v ++ ws ++ mirror pre ++ trail` -/
+def tagLineFramedOK (endRe : Re) (tag : Text) (s : TagLineSpec) (ws : Text) : Bool :=
+  tagLineRaw endRe tag (s.framed ws) && isStripped s.v && !ws.isEmpty && ws.all isSpace && !(mirror s.pre).isEmpty
 
 /-- the hypotheses on a tag line that is to be *found* (nothing about what the reader does after
-    it, hence nothing about END running on) -/
+    it, hence nothing about where END stops) -/
 def tagLineFound (endRe : Re) (tag : Text) (s : TagLineSpec) : Bool :=
   WFShape tag s.pre s.blanks s.v s.trail [] && endOk endRe s.trail &&
-  tailSafe endRe s.v && isStripped s.v && frameFree s.pre s.v
+  valueSafeIn endRe s.v s.trail && isStripped s.v && frameFree s.pre s.v
 
 /-- the same with a purely syntactic condition on the trail: it is a sequence of pieces, each a blank/tab or a
     terminator that END lists as a literal alternative (`pieceOk`) -/
@@ -45,22 +68,35 @@ def tagLineSyn (endRe : Re) (tag : Text) (s : TagLineSpec) (pieces : List Text) 
   WFShape tag s.pre s.blanks s.v s.trail [] && !openEnd s.trail &&
   tailSafe endRe s.v && isStripped s.v && frameFree s.pre s.v
 
+/-- a framed line with a purely syntactic condition on the trail -/
+def tagLineFramedSyn (endRe : Re) (tag : Text) (s : TagLineSpec) (ws : Text) (pieces : List Text) : Bool :=
+  (match starBody endRe with
+   | some body => pieces.all (pieceOk body)
+   | none => false) &&
+  s.trail == pieces.flatten &&
+  WFShape tag s.pre s.blanks (s.v ++ ws ++ mirror s.pre) s.trail [] && !openEnd s.trail &&
+  tailSafe endRe (s.v ++ ws ++ mirror s.pre) && isStripped s.v && !ws.isEmpty && ws.all isSpace && !(mirror s.pre).isEmpty
+
 /-- a line of a text as the reader of one tag sees it -/
 inductive TextLine where
-  | free (l : Text)               -- no `TAG[ \t]` starts in it; otherwise arbitrary
-  | tagged (s : TagLineSpec)      -- a tag line
+  | free (l : Text)                        -- no `TAG[ \t]` starts in it; otherwise arbitrary
+  | tagged (s : TagLineSpec)               -- a tag line
+  | framed (s : TagLineSpec) (ws : Text)   -- a tag line inside an ASCII-art frame
 
 def TextLine.text (tag : Text) : TextLine → Text
   | .free l => l
   | .tagged s => s.line tag
+  | .framed s ws => (s.framed ws).line tag
 
 def TextLine.value : TextLine → Option Text
   | .free _ => none
   | .tagged s => some s.v
+  | .framed s _ => some s.v
 
 def TextLine.ok (endRe : Re) (tag : Text) : TextLine → Bool
   | .free l => tagFreeLine tag l
   | .tagged s => tagLineOK endRe tag s
+  | .framed s ws => tagLineFramedOK endRe tag s ws
 
 /-- the text made of the lines, separated by line feeds (a text that ends with a line feed has
     an empty last line) -/
@@ -149,19 +185,25 @@ inductive InfoLine where
   | con (s : TagLineSpec)
   | cpr (x : Text × CPat × Text) (y : YearForm) (h pre trail : Text)
   | other (l : Text)
+  | licF (s : TagLineSpec) (ws : Text)     -- a licence line inside an ASCII-art frame
+  | conF (s : TagLineSpec) (ws : Text)     -- a contributor line inside an ASCII-art frame
 
 def InfoLine.text : InfoLine → Text
   | .lic s => s.line Generated.licenseTag
   | .con s => s.line Generated.contributorTag
   | .cpr x y h pre trail => pre ++ builtLine x.1 y h ++ trail
   | .other l => l
+  | .licF s ws => (s.framed ws).line Generated.licenseTag
+  | .conF s ws => (s.framed ws).line Generated.contributorTag
 
 def InfoLine.licValue : InfoLine → Option Text
   | .lic s => some s.v
+  | .licF s _ => some s.v
   | _ => none
 
 def InfoLine.conValue : InfoLine → Option Text
   | .con s => some s.v
+  | .conF s _ => some s.v
   | _ => none
 
 def InfoLine.notice : InfoLine → Option Text
@@ -171,10 +213,12 @@ def InfoLine.notice : InfoLine → Option Text
 /-- the line as the licence reader / the contributor reader / the copyright reader sees it -/
 def InfoLine.forLic : InfoLine → TextLine
   | .lic s => .tagged s
+  | .licF s ws => .framed s ws
   | l => .free l.text
 
 def InfoLine.forCon : InfoLine → TextLine
   | .con s => .tagged s
+  | .conF s ws => .framed s ws
   | l => .free l.text
 
 def InfoLine.forCpr : InfoLine → CprLine
@@ -201,7 +245,11 @@ def InfoLine.syn (endRe : Re) (l : InfoLine) (pieces : List Text) : Bool :=
    | .cpr x y h pre trail => decide (x ∈ prefixShapes) && WFNoticeSyn endRe x y h pre trail pieces &&
        isStripped (builtLine x.1 y h) &&
        tagFreeLine Generated.licenseTag l.text && tagFreeLine Generated.contributorTag l.text
-   | .other t => tagFreeLine Generated.licenseTag t && tagFreeLine Generated.contributorTag t && headFree t) &&
+   | .other t => tagFreeLine Generated.licenseTag t && tagFreeLine Generated.contributorTag t && headFree t
+   | .licF s ws => tagLineFramedSyn endRe Generated.licenseTag s ws pieces &&
+       tagFreeLine Generated.contributorTag l.text && headFree l.text
+   | .conF s ws => tagLineFramedSyn endRe Generated.contributorTag s ws pieces &&
+       tagFreeLine Generated.licenseTag l.text && headFree l.text) &&
   noBreakB l.text && (findSub Generated.ignoreStart l.text).isNone
 
 def infoTextOf (ls : List InfoLine) : Text := join ['\n'] (ls.map (·.text))
